@@ -77,6 +77,19 @@ func designStore() {
 				Response("not_found", StatusNotFound)
 			})
 		})
+		Method("blob", func() {
+			Payload(func() {
+				Attribute("id", String)
+				Attribute("data", Bytes)
+				Required("id", "data")
+			})
+			Result(Bytes)
+			HTTP(func() {
+				POST("/blobs/{id}")
+				Body("data")
+				Response(StatusOK, func() { ContentType("text/plain") })
+			})
+		})
 		Method("add", func() {
 			Payload(func() {
 				Attribute("shelf", String)
